@@ -152,17 +152,29 @@ def extract():
     ls = _in_lists(dpp)
     res["clitic_cases"] = _find(ls, lambda l: "acc" in l, "doPronounPlacement: clitic case list")
     res["relative_stop"] = _find(ls, lambda l: "dont" in l, "doPronounPlacement: relative pronoun list")
-    # the sort key of the clitics: does it look the realization/lemma (a string) up, or the Terminal itself?
-    key_on_string = False
+    # the sort key of the clitics: does it look the realization (a string) up, or the Terminal itself?
+    key_on_string = None
+    neg_as_pas = False
     for node in ast.walk(dpp):
         if isinstance(node, ast.Call) and isinstance(node.func, ast.Attribute) and node.func.attr == "sort":
             for kw in node.keywords:
                 if kw.arg == "key" and isinstance(kw.value, ast.Lambda):
                     arg = kw.value.args.args[0].arg
+                    on_obj = on_str = False
                     for sub in ast.walk(kw.value.body):
-                        if isinstance(sub, ast.Subscript):
-                            idx = sub.slice
-                            key_on_string = not (isinstance(idx, ast.Name) and idx.id == arg)
+                        if isinstance(sub, ast.Subscript) and isinstance(sub.slice, ast.Name) and sub.slice.id == arg:
+                            on_obj = True
+                        if isinstance(sub, ast.Attribute) and isinstance(sub.value, ast.Name) and sub.value.id == arg \
+                                and sub.attr == "realization":
+                            on_str = True
+                        if isinstance(sub, ast.Constant) and sub.value == "pas":
+                            neg_as_pas = True
+                    if on_obj == on_str:
+                        _err("doPronounPlacement: cannot tell what the sort key of the clitics looks up")
+                    key_on_string = on_str
+    if key_on_string is None:
+        _err("doPronounPlacement: pros.sort(key=lambda …) not found")
+    res["sort_neg_as_pas"] = neg_as_pas
     res["sort_key_on_string"] = key_on_string
     # TerminalFr.conjugate
     tf = _src("TerminalFr.py")
@@ -279,6 +291,8 @@ def generate():
         w("def %s : List (Str × Nat) :=\n  %s" % (name, lrank(d, list(d.keys()))))
     w("/-- does `pros.sort(key=…)` of doPronounPlacement look a *string* up in the rank table (true) or the Terminal (false)? -/")
     w("def sortKeyOnString : Bool := %s" % ("true" if r["sort_key_on_string"] else "false"))
+    w("/-- does that key rank the second negative word (a Q: plus, jamais…) like `pas`? -/")
+    w("def sortNegAsPas : Bool := %s" % ("true" if r["sort_neg_as_pas"] else "false"))
     w("def cliticCases : List Str := %s" % lstrs(r["clitic_cases"]))
     w("def relativeStop : List Str := %s" % lstrs(r["relative_stop"]))
     w("def compoundList : List Str := %s" % lstrs(r["compound_list"]))
@@ -325,8 +339,9 @@ def generate():
             out.append("  { val := %s, pe := %s, g := %s, n := %s, c := %s, tn := %s }" % (
                 lstr(x["val"]), "none" if x.get("pe") is None else "(some %d)" % x["pe"], fld("g"), fld("n"), fld("c"), fld("tn")))
         return "[\n" + ",\n".join(out) + "]"
+    w("set_option maxRecDepth 10000 in")
     w("/-- rules-fr.json declension `pn4` (moi/toi/lui…: tonic and clitic forms) -/")
-    w("set_option maxRecDepth 10000 in\ndef pn4 : List DeclRow := " + rows(r["pn4"]))
+    w("def pn4 : List DeclRow := " + rows(r["pn4"]))
     w("/-- rules-fr.json declension `pn1` (je/tu/il…) -/")
     w("def pn1 : List DeclRow := " + rows(r["pn1"]))
     w("/-- lexicon-fr.json: person / number / gender the lexicon gives the tonic lemmas -/")
